@@ -1,5 +1,5 @@
 (* C15 -- only the Zookeeper lock holder evaluates; pacing.  Statements only; proofs in EvalLoopProofs.v. *)
-From Coq Require Import ZArith List Bool FMapPositive.
+From Coq Require Import ZArith List Bool FMapPositive Permutation.
 From Burrow Require Import EvalLoop EvalLoopProofs.
 Import ListNotations.
 Open Scope Z_scope.
@@ -54,3 +54,76 @@ Theorem C15_pacing_interleaved : forall mi c0 gs tr l1 e1 a1 l2 e2 a2 l3 g t1 t2
   t2 - t1 > mi * ns_per_s.
 Proof. exact pacing_interleaved. Qed.
 Print Assumptions C15_pacing_interleaved.
+
+(* ---- "the shortest CONFIGURED notifier interval": minInterval is derived, by Coordinator.Configure, from the module
+   configurations (mc_interval / mc_send / mc_threshold = the explicitly set interval / send-interval / threshold keys,
+   None = absent; effective interval = the key, or the default 60).  shortest mods i: some module has interval i and no
+   module has a smaller one. *)
+Theorem C15_min_interval_none : configure_min [] = no_module_interval.
+Proof. exact min_interval_none. Qed.
+Print Assumptions C15_min_interval_none.
+
+Theorem C15_min_interval_is_min : forall mods,
+  mods <> [] -> (forall m, In m mods -> eff_interval m < max_int64) ->
+  shortest mods (configure_min mods).
+Proof. exact min_interval_is_min. Qed.
+Print Assumptions C15_min_interval_is_min.
+
+(* Go iterates the module map in any order *)
+Theorem C15_min_interval_order : forall mods mods', Permutation mods mods' -> configure_min mods = configure_min mods'.
+Proof. exact min_interval_order. Qed.
+Print Assumptions C15_min_interval_order.
+
+(* no key but `interval` matters (send-interval, threshold: any values, present or absent) *)
+Theorem C15_min_interval_only_interval : forall mods mods',
+  map mc_interval mods = map mc_interval mods' -> configure_min mods = configure_min mods'.
+Proof. exact min_interval_only_interval. Qed.
+Print Assumptions C15_min_interval_only_interval.
+
+(* the second sentence of C15 end to end: every configuration with at least one module (intervals non-negative int64
+   below MaxInt64), every trace of the loop that Configure set up, both machines *)
+Theorem C15_pacing_configured : forall mods i c0 gs tr l1 e1 a1 l2 e2 a2 l3 g t1 t2,
+  (forall m, In m mods -> 0 <= eff_interval m < max_int64) ->
+  shortest mods i ->
+  snd (run (step_s (configure_min mods)) (init_state c0 gs) tr) = l1 ++ (e1, a1) :: l2 ++ (e2, a2) :: l3 ->
+  In (Eval g t1) a1 -> In (Eval g t2) a2 ->
+  forallb (keeps g) (map fst l2) = true ->
+  t2 - t1 > i * ns_per_s.
+Proof. exact pacing_configured. Qed.
+Print Assumptions C15_pacing_configured.
+
+Theorem C15_pacing_configured_interleaved : forall mods i c0 gs tr l1 e1 a1 l2 e2 a2 l3 g t1 t2,
+  (forall m, In m mods -> 0 <= eff_interval m < max_int64) ->
+  shortest mods i ->
+  snd (run (step_i (configure_min mods)) (init_state c0 gs) tr) = l1 ++ (e1, a1) :: l2 ++ (e2, a2) :: l3 ->
+  In (Eval g t1) a1 -> In (Eval g t2) a2 ->
+  forallb (keeps g) (map fst l2) = true ->
+  t2 - t1 > i * ns_per_s.
+Proof. exact pacing_configured_interleaved. Qed.
+Print Assumptions C15_pacing_configured_interleaved.
+
+(* the pace is the shortest configured interval and not a longer one: with the gate open, an iteration of the request
+   loop evaluates every group whose last evaluation is more than that interval old *)
+Theorem C15_evaluated_when_due : forall mods i s now g le,
+  (forall m, In m mods -> eff_interval m < max_int64) ->
+  shortest mods i ->
+  doEval s = true -> ph s <> Crashed ->
+  PositiveMap.find g (groups s) = Some le -> now - le > i * ns_per_s ->
+  In (Eval g now) (snd (step_s (configure_min mods) s (Tick now))).
+Proof. exact evaluated_when_due. Qed.
+Print Assumptions C15_evaluated_when_due.
+
+(* non-vacuity: intervals 30 / 60 with send-intervals 300 / 5 *)
+Example C15_min_interval_example :
+  configure_min two_modules = 30 /\ configure_min (rev two_modules) = 30 /\ shortest two_modules 30
+  /\ configure_min [mkMod None (Some 5) None; mkMod (Some 61) None None] = 60
+  /\ configure_min [mkMod (Some 0) None None; mkMod None None None] = 0.
+Proof. exact min_interval_example. Qed.
+
+Example C15_pacing_configured_example :
+  (forall m, In m two_modules -> 0 <= eff_interval m < max_int64) /\
+  snd (run (step_s (configure_min two_modules)) (init_state true one_group)
+         [Wake; LockOk; Tick 31000000000; Tick 36000000000; Tick 61000000000; Tick 61000000001])
+  = [(Wake, [CallLock]); (LockOk, []); (Tick 31000000000, [Eval 1 31000000000]); (Tick 36000000000, []);
+     (Tick 61000000000, []); (Tick 61000000001, [Eval 1 61000000001])].
+Proof. exact pacing_configured_example. Qed.
